@@ -88,6 +88,37 @@ def extract_mixin(repo):
     return sorted(rows)
 
 
+def extract_return_unpack(repo):
+    """trace_function's rule for wiring the returned value to the outputs (AST of tracing/function.py):
+    `if [is_row and] len(out_tys) > A: UnpackTuple … elif len(out_tys) > B: [value] else: []`
+    -> (requires_row_tuple, A, B); unrecognised shape -> (False, 999, 999)"""
+    p = os.path.join(repo, "guppylang-internals", "src", "guppylang_internals", "tracing", "function.py")
+    tree = ast.parse(open(p).read())
+
+    def len_gt(t):
+        if (isinstance(t, ast.Compare) and len(t.ops) == 1 and isinstance(t.ops[0], ast.Gt)
+                and ast.unparse(t.left) == "len(out_tys)" and isinstance(t.comparators[0], ast.Constant)):
+            return t.comparators[0].value
+        return None
+
+    for n in ast.walk(tree):
+        if isinstance(n, ast.If) and "UnpackTuple" in ast.unparse(n.body) and "regular_returns" in ast.unparse(n.body):
+            test, row = n.test, False
+            if isinstance(test, ast.BoolOp) and isinstance(test.op, ast.And) and len(test.values) == 2:
+                row = ast.unparse(test.values[0]) == "is_row"
+                test = test.values[1]
+            a = len_gt(test)
+            b = len_gt(n.orelse[0].test) if len(n.orelse) == 1 and isinstance(n.orelse[0], ast.If) else None
+            if a is not None and b is not None:
+                if row:   # is_row must be "a non-preserved tuple type"
+                    src = ast.unparse(tree)
+                    row = "is_row = isinstance(out_obj._ty, TupleType) and (not out_obj._ty.preserve)" in src
+                    if not row:
+                        return (False, 999, 999)
+                return (row, a, b)
+    return (False, 999, 999)
+
+
 def extract_tables():
     """checker binary/unary tables and the tracing module's derived tables (imported objects)"""
     import guppylang_internals.checker.expr_checker as ec
@@ -131,7 +162,7 @@ def _d(name):  # Lean constructor for a dunder
     return "d_" + name.strip("_")
 
 
-def render(mixin, ops, uops, fwd, rev, acc, uacc):
+def render(mixin, ops, uops, fwd, rev, acc, uacc, retrule=(True, 0, 0)):
     dunders = sorted({d for _o, l, r in ops for d in (l, r)} | {d for _o, d in uops}
                      | {m for m, _x, _y in mixin} | {x for _m, x, _y in mixin if x}
                      | {a for p in fwd + rev for a in p})
@@ -194,6 +225,12 @@ def render(mixin, ops, uops, fwd, rev, acc, uacc):
         "def uopNames : List (String × UOp) := [" + ", ".join(f'("{o}", .{o})' for o, _d2 in uops) + "]",
         "def dunderNames : List (Dunder × String) := [" + ", ".join(f'(.{_d(d)}, "{d}")' for d in dunders) + "]",
         "",
+        "/-- `trace_function`: the returned value is unpacked into a row when [it is a tuple and] `len(row) > unpackIfLenGt`,",
+        "    handed on as one value when `len(row) > singleIfLenGt`, and dropped otherwise (AST of tracing/function.py) -/",
+        f"def unpackNeedsTuple : Bool := {'true' if retrule[0] else 'false'}",
+        f"def unpackIfLenGt : Nat := {retrule[1]}",
+        f"def singleIfLenGt : Nat := {retrule[2]}",
+        "",
         "end GuppyVerif.C21",
         "",
     ]
@@ -208,7 +245,7 @@ def translate(ctx):
     dunders = sorted({d for _o, l, r in ops for d in (l, r)})
     unary = sorted({d for _o, d in uops})
     acc, uacc = extract_acc(dunders, unary)
-    txt = render(mixin, ops, uops, fwd, rev, acc, uacc)
+    txt = render(mixin, ops, uops, fwd, rev, acc, uacc, extract_return_unpack(bootstrap.REPO))
     old = open(GEN).read() if os.path.exists(GEN) else None
     if old != txt:
         with open(GEN, "w") as f:
@@ -437,8 +474,9 @@ DEP_PRELUDE = (
     "@guppy\ndef move(xs: array[int, 2], ys: array[int, 2]) -> None:\n    ys[1] = xs[0]\n"
     "@guppy\ndef inc(x: int) -> int:\n    return x + 1\n"
     "@guppy\ndef tbump(ts: array[tuple[int, bool], 2]) -> None:\n    ts[0] = (7, False)\n"
+    "@guppy\ndef one(x: int) -> tuple[int]:\n    return (x,)\n"
 )
-DEP_CALLEES = ("mem_swap", "bump", "fbump", "move", "inc", "tbump")
+DEP_CALLEES = ("mem_swap", "bump", "fbump", "move", "inc", "tbump", "one")
 SCALARS = {"int": ("x - y", "int"), "nat": ("x + y", "nat"), "float": ("x / y", "float"), "bool": ("x & y", "bool"),
            "tuple[int, float]": ("x[0] + y[0]", "int"), "P": ("x.a - y.a", "int")}
 
@@ -454,6 +492,30 @@ def dep_probes():
     out.append(("swap computed values", "x: int, y: int", "int", "a = x + 1\nb = y * 2\nmem_swap(a, b)\nreturn a - b", "exact"))
     out.append(("swap after call", "x: int, y: int", "int", "a = inc(x)\nmem_swap(a, y)\nreturn a - y", "exact"))
     out.append(("plain calls", "x: int", "int", "return inc(inc(x)) - x", "exact"))
+    # return shapes: the row of the signature vs what the traced function wires to its Output
+    for n, sig, rt, body in [
+        ("return scalar", "x: int", "int", "return x + 1"),
+        ("return None", "x: int", "None", "y = x + 1"),
+        ("return 1-tuple", "x: int", "tuple[int]", "return (x + 1,)"),
+        ("return 1-tuple of tuple", "x: int, y: float", "tuple[tuple[int, float]]", "return ((x, y),)"),
+        ("return 1-tuple of 1-tuple", "x: int", "tuple[tuple[int]]", "return ((x,),)"),
+        ("return 1-tuple of struct", "x: P", "tuple[P]", "return (x,)"),
+        ("return 1-tuple of built struct", "x: int, y: float", "tuple[P]", "return (P(x, y),)"),
+        ("return 1-tuple of array", "x: int", "tuple[array[int, 2]]", "return (array(x, x + 1),)"),
+        ("return 1-tuple of bool", "x: int", "tuple[bool]", "return (x > 1,)"),
+        ("return 1-tuple const", "", "tuple[int]", "return (3,)"),
+        ("return 2-tuple", "x: int, y: float", "tuple[float, int]", "return (y, x)"),
+        ("return 3-tuple", "x: int", "tuple[int, int, int]", "return (x, x + 1, x + 2)"),
+        ("return 2-tuple containing 1-tuple", "x: int", "tuple[int, tuple[int]]", "return (x, (x + 1,))"),
+        ("return empty tuple", "x: int", "tuple[()]", "return ()"),
+        ("return struct", "x: int, y: float", "P", "return P(x, y)"),
+        ("return array", "x: int", "array[int, 2]", "return array(x, x)"),
+        ("return tuple arg", "t: tuple[int]", "tuple[int]", "return t"),
+        ("return tuple arg element", "t: tuple[int]", "int", "return t[0]"),
+        ("1-tuple through call", "x: int", "tuple[int]", "return one(x)"),
+        ("1-tuple with borrowed array", "xs: array[int, 2]", "tuple[int]", "bump(xs)\nreturn (xs[0],)"),
+    ]:
+        out.append((n, sig, rt, body, "deps" if "array" in sig else "exact"))
     arr = [
         ("array bump read", "xs: array[int, 2]", "int", "bump(xs)\nreturn xs[0]"),
         ("array bump twice", "xs: array[int, 2]", "int", "bump(xs)\nbump(xs)\nreturn xs[0] + xs[1]"),
